@@ -84,6 +84,9 @@ func (w *e1World) porcupineCheck(all []*opRec, seqsI interface{}, cfg *e1Config)
 				}
 				return out
 			case kValues, kIterator, kSnapshot:
+				if o.d.kind == kIterator && o.d.iterUp != 0 {
+					return same // a bounded iteration is judged against the recorded states (checkBoundedIterator)
+				}
 				ss := map[string]bool{}
 				for _, h := range o.seq {
 					ss[h] = true
